@@ -13,3 +13,5 @@ Lemma pin_collapse_re_calls : GenTables.collapse_re_calls = Pins.collapse_re_cal
 Proof. reflexivity. Qed.
 Lemma pin_collapse_literals : GenTables.collapse_literals = Pins.collapse_literals.
 Proof. reflexivity. Qed.
+Lemma pin_strategy_methods : GenTables.strategy_methods = Pins.strategy_methods.
+Proof. reflexivity. Qed.
